@@ -131,11 +131,25 @@ theorem deleteLoop_congr (fuel : Nat) (r : Bool) : ∀ (k : Nat) (toks toks2 : L
       | ok x =>
         obtain ⟨root, res⟩ := x
         simp only
-        split
-        · cases delThrough root res.parent res.nameIdx with
-          | error e => rfl
-          | ok root' => exact deleteLoop_congr fuel r k toks toks2 root' false hk
-        · exact deleteLoop_congr fuel r k toks toks2 root false hk
+        have hgk : toks.getD k [] = toks2.getD k [] := by
+          have h1 : (toks.take (k + 1)).getD k [] = toks.getD k [] := by
+            simp [List.getD_eq_getElem?_getD, List.getElem?_take]
+          have h2 : (toks2.take (k + 1)).getD k [] = toks2.getD k [] := by
+            simp [List.getD_eq_getElem?_getD, List.getElem?_take]
+          rw [← h1, ← h2, h]
+        rw [hgk]
+        cases delPlace fuel root (toks2.getD k []) res with
+        | error e => rfl
+        | ok ores =>
+          cases ores with
+          | none => exact deleteLoop_congr fuel r k toks toks2 root f hk
+          | some res' =>
+            simp only
+            split
+            · cases delThrough root res'.parent res'.nameIdx with
+              | error e => rfl
+              | ok root' => exact deleteLoop_congr fuel r k toks toks2 root' false hk
+            · exact deleteLoop_congr fuel r k toks toks2 root false hk
 
 theorem deleteLoop_init (fuel : Nat) (r : Bool) (init : List Str) (last : Str) (cur : Val) (f : Bool) :
     deleteLoop fuel (init ++ [last]) r cur init.length f = deleteLoop fuel init r cur init.length f :=
@@ -210,7 +224,10 @@ theorem deleteLoop_prune (fuel : Nat) : ∀ (n : Nat) (toks : List Str) (cur : V
       have htake : (init ++ [last]).take (init.length + 1) = init ++ [last] := by
         rw [List.take_of_length_le (by simp)]
       rw [htake, hres]
-      simp only [Bool.false_or, Bool.true_and, hval]
+      have hdp : ∀ tok, delPlace fuel cur tok res = .ok (some res) := by
+        obtain ⟨_, _, pp, _, _, _, _, hpar, _⟩ := hfound
+        exact fun tok => delPlace_at _ _ tok _ _ hpar
+      simp only [hdp, Bool.false_or, Bool.true_and, hval]
       by_cases he : isEmptyDict c = true
       · obtain ⟨cur', hdel⟩ := delAt_isSome' (q0 ++ r) cur c hqne hs.getAt
         have hdt := delThrough_found cur (q0 ++ r) c res cur' hfound hdel
@@ -252,12 +269,15 @@ theorem deleteLoop_rec_spelled (fuel : Nat) (toks : List Str) (t : Val) (p : Pos
   have hfi : fuel ≥ 2 * init.length := by simp at hf; omega
   obtain ⟨res, hres, hfound⟩ := find_spells t true hs hne fuel [] slash true rfl hf
   have hdt := delThrough_found t (q0 ++ r) c res t' hfound hdel
+  have hdp : ∀ tok, delPlace fuel t tok res = .ok (some res) := by
+    obtain ⟨_, _, pp, _, _, _, _, hpar, _⟩ := hfound
+    exact fun tok => delPlace_at _ _ tok _ _ hpar
   obtain ⟨⟨c0', hsp'⟩, hmid⟩ := spells_after_delete h1 h2 hdel
   have hlen : (init ++ [last]).length = init.length + 1 := by simp
   have htake : (init ++ [last]).take (init.length + 1) = init ++ [last] := by
     rw [List.take_of_length_le (by simp)]
   rw [hlen, deleteLoop, htake, hres]
-  simp only [Bool.true_or, if_true, hdt]
+  simp only [Bool.true_or, if_true, hdp, hdt]
   rw [deleteLoop_init, deleteLoop_prune fuel init.length init t' q0 c0' rfl hsp' hfi]
   rcases spells_single_mid h2 with hr1 | ⟨s1, s2, cls, xs, rfl, _⟩
   · obtain ⟨s, rfl⟩ : ∃ s, r = [s] := by
